@@ -23,7 +23,7 @@ def run(ctx):
                      mass_mode="some")
     # graphs with subgraphs of >=3 components (a bubble and two separated edges ...): many sectors per graph
     ss += S.generate(ctx, 3 if ctx.quick else 12, 150 if ctx.quick else 400, max_e=7, max_loops=3, routings_per_graph=1, kinds=("uniform",),
-                     names=["hexagon_doubled"])
+                     names=["hexagon_doubled", "box_doubled", "box_doubled"])
     ss += S.generate(ctx, 2 if ctx.quick else 8, 100 if ctx.quick else 300, max_e=7, max_loops=3, routings_per_graph=1, kinds=("uniform",),
                      names=["bubble_chain3"])
     # two-point functions: the externals are the end points of one propagator (a single remaining edge can still be
@@ -41,6 +41,26 @@ def run(ctx):
         for j in range(n - 1):
             xs[2 * j] = rng.choice([5e-324, 1 - 2.0 ** -53, rng.random()])
         ss.append(dict(s, xs=xs, req=S.sample_request(s["case"], s["routing"], s["table"], xs), kind="rare_sector"))
+    evaluate(ctx, ss)
+    # failing-input search when the tie to the subgraph table broke (build_sampler rejected graphs the exact oracle accepts): the same
+    # topologies with larger propagator powers, which a wrong loop number / spanning flag may let through, many sectors each
+    rej = ctx.extra.pop("_rejected_cases", [])
+    if rej and not ctx.violations:
+        from .. import oracle
+        retry = []
+        for c0 in rej[:6]:
+            for f in (1.5, 2.0, 3.0):
+                w = [t * f for t in c0["weights"]]
+                dod, Lf, table = oracle.table_oracle(c0["edges"], w, c0["massive"], c0["ext"], c0["D"])
+                if not oracle.divergent_subsets(table):
+                    retry.append(dict(c0, weights=w, dod=dod, loops=Lf, table=table, accepted=True, name=c0.get("name", "") + "+heavier"))
+        ctx.count("search.retry_cases", len(retry))
+        evaluate(ctx, S.samples_for_cases(ctx, retry, 60))
+    ctx.extra.pop("_rejected_cases", None)
+
+
+def evaluate(ctx, ss):
+    from mpmath import mp, mpf
     S.run(ss)
     SC.corr_perm(ctx, ss)
     for s in ss:
